@@ -281,6 +281,16 @@ func logFileLeg(r *ev.Run) {
 	}
 	var outData, inData []string
 	nconn, ndisc, nerr := 0, 0, 0
+	// per direction: line numbers of the connect record, the I/O records and the disconnect record
+	type span struct{ conn, disc, firstIO, lastIO int }
+	spans := map[string]*span{}
+	spanOf := func(rec map[string]any) *span {
+		d, _ := rec[iobroker.LKDirection].(string)
+		if spans[d] == nil {
+			spans[d] = &span{}
+		}
+		return spans[d]
+	}
 	for i, line := range strings.Split(strings.TrimSuffix(string(b), "\n"), "\n") {
 		var rec map[string]any
 		if !reJSONLine.MatchString(line) || json.Unmarshal([]byte(line), &rec) != nil {
@@ -289,6 +299,11 @@ func logFileLeg(r *ev.Run) {
 		}
 		switch rec["msg"] {
 		case iobroker.LMShellIO:
+			sp := spanOf(rec)
+			if sp.firstIO == 0 {
+				sp.firstIO = i + 1
+			}
+			sp.lastIO = i + 1
 			d, _ := rec[iobroker.LKData].(string)
 			if rec[iobroker.LKDirection] == string(iobroker.LVOutput) {
 				outData = append(outData, d)
@@ -297,8 +312,12 @@ func logFileLeg(r *ev.Run) {
 			}
 		case iobroker.LMNewConnection:
 			nconn++
+			if sp := spanOf(rec); sp.conn == 0 {
+				sp.conn = i + 1
+			}
 		case iobroker.LMDisconnected:
 			ndisc++
+			spanOf(rec).disc = i + 1
 		case iobroker.LMAlreadyConnected, iobroker.LMIncorrectKey, iobroker.LMDisconnecting, iobroker.LMKeyMissing:
 			nerr++
 		}
@@ -330,6 +349,13 @@ func logFileLeg(r *ev.Run) {
 	}
 	if nconn != 2 || ndisc != 2 || nerr != 1 {
 		r.Violation("logfile:connection-records", map[string]any{"connect_records": nconn, "disconnect_records": ndisc, "refusal_records": nerr, "expected": "2 / 2 / 1"})
+	}
+	// a transcript in order: a stream's traffic lies between its connect and its disconnect record
+	for d, sp := range spans {
+		if sp.firstIO != 0 && (sp.conn == 0 || sp.conn > sp.firstIO || (sp.disc != 0 && sp.disc < sp.lastIO)) {
+			r.Violation("logfile:record-order", map[string]any{"direction": d, "connect_record_line": sp.conn, "first_io_record_line": sp.firstIO,
+				"last_io_record_line": sp.lastIO, "disconnect_record_line": sp.disc})
+		}
 	}
 	r.Add("logfile_lines_checked", len(strings.Split(string(b), "\n")))
 }
